@@ -2076,10 +2076,7 @@ bn_and(bn_p bn, bn_p n) {
 	for (i = 0; i < digits; i ++) {
 		bn->num[i] &= n->num[i];
 	}
-	if (bn->count > digits) {
-		bn->num[digits] = 0;
-	}
-	bn_update_digits__int(bn, digits);
+	bn->digits = bn_digits_calc_digits(bn->num, digits);
 	return (0);
 }
 
